@@ -19,7 +19,7 @@ RULE = ('older tree (plain mappings/lists/scalars, optionally !call nodes as ent
         'elements all present (validity predicate; open finding list-element-survivor-shift). In (a) and (c) the focus may also meet an older '
         'list or scalar. '
         'non-trivial = focus depth >=1, or a protected survivor, or a key coinciding with an ancestor key; distinct = hash of the case')
-BUDGET = {'quick': (4, 600), 'thorough': (16, 10000)}
+BUDGET = {'quick': (4, 1500), 'thorough': (16, 10000)}
 ASSUMPTIONS = ['focus paths never run through or end at a function node (Call <- dict updates arguments by design)',
                'protected survivors whose path runs through a non-mapping of the newer content are not generated',
                'explicit !del on falsy scalars / empty containers (remove-this-key idiom) only in sub-check (d) as value-less !del']
